@@ -203,6 +203,9 @@ class Prov:
                 return ("param", l, self.names.get(l, f"_{l}"))
             # only deep/partial defs?
             return ("local", l, self.names.get(l))
+        if len(ds) > 1:
+            # loop-carried / conditionally assigned variable: keep opaque, identified by its reaching defs
+            return ("var", l, self.names.get(l), tuple(ds))
         outs = []
         for d in ds:
             if d[0] == "param":
@@ -221,6 +224,16 @@ class Prov:
         if len(uniq) == 1:
             return uniq[0]
         return ("phi", tuple(uniq))
+
+    def expand(self, var):
+        """One-level expansion of a ('var', l, name, defs) node: list of the defining expressions."""
+        out = []
+        for d in var[3]:
+            if d[0] == "param":
+                out.append(("param", var[1], var[2]))
+            else:
+                out.append(self.def_expr(d, (var[1], None), 0, frozenset()))
+        return out
 
     def def_expr(self, d, key, depth, seen):
         bb, idx = d
@@ -289,9 +302,11 @@ def walk(e):
     stack = [e]
     while stack:
         x = stack.pop()
-        if not isinstance(x, tuple):
+        if not isinstance(x, tuple) or not x or not isinstance(x[0], str):
             continue
         yield x
+        if x[0] == "var":
+            continue
         for c in x[1:]:
             if isinstance(c, tuple):
                 if c and isinstance(c[0], str):
@@ -369,6 +384,26 @@ def show(e, depth=0):
         return "phi{" + " | ".join(show(a, depth + 1) for a in e[1]) + "}"
     if k == "place":
         return e[2] or f"_{e[1]}"
+    if k == "var":
+        return f"var:{e[2] or '_' + str(e[1])}"
     if k in ("local", "loop"):
         return f"{k}:{e[2] or '_' + str(e[1])}"
     return str(e)[:60]
+
+
+def walk_deep(e, prov, limit=400):
+    """Like walk(), but expands ('var', ...) nodes through their reaching definitions (each var once)."""
+    seen = set()
+    stack = [e]
+    n = 0
+    while stack and n < limit:
+        x = stack.pop()
+        for y in walk(x):
+            n += 1
+            yield y
+            if y[0] == "var":
+                key = (y[1], y[3])
+                if key in seen:
+                    continue
+                seen.add(key)
+                stack.extend(prov.expand(y))
